@@ -263,7 +263,7 @@ package tcell
 
 //@ spec xbtn(b int) ButtonMask = b&64 != 0 ? (b&3 == 0 ? WheelUp : b&3 == 1 ? WheelDown : ButtonNone)
 //@                                         : (b&3 == 0 ? Button1 : b&3 == 1 ? Button3 : b&3 == 2 ? Button2 : ButtonNone)
-//@ spec xmod(b int) ModMask = (b&4 != 0 ? ModShift : ModNone) | (b&8 != 0 ? ModAlt : ModNone) | (b&16 != 0 ? ModCtrl : ModNone)
+//@ spec xmod(b int) ModMask = (b&4 != 0 ? ModShift : ModNone) + (b&8 != 0 ? ModAlt : ModNone) + (b&16 != 0 ? ModCtrl : ModNone)
 //@ spec clampTo(v int, n int) int = v < 0 ? 0 : (v > n-1 ? n-1 : v)
 
 //@ func NewEventMouse
@@ -321,4 +321,61 @@ package tcell
 //@           invariant [x8] state >= 5 && b[0] != 0x1b ==> x == int(b[3]) - 33
 //@           decreases len(b) - rangeindex
 //@   loop 2: invariant [consume] -1 <= i && buf.off + i + 1 == old(buf.off) + n0 && bufwf(buf) && len(buf.buf) == old(len(buf.buf)) && buf.buf == old(buf.buf)
+//@           decreases i + 1
+
+// SGR (1006) report: (ESC [ | 0x9b) < B ; X ; Y (M|m), each field an optional '-' followed by decimal digits.
+// Ghost positions: hd = index of '<', s1/s2 = indices of the two ';', fs = start of the field being read.
+// dec is the value of a digit run; sval adds the sign.  (Math integers: fields beyond 18 digits would overflow int.)
+
+//@ spec rec dec(b []byte, lo int, hi int) int = hi <= lo ? 0 : dec(b, lo, hi-1)*10 + (int(b[hi-1]) - '0')
+//@ pred isdig(c byte) = '0' <= c && c <= '9'
+//@ pred sgrHdr(b []byte, h int) = (h == 2 && b[0] == 0x1b && b[1] == '[' && b[2] == '<') || (h == 1 && b[0] == 0x9b && b[1] == '<')
+//@ pred digitsIn(b []byte, lo int, hi int) = forall p int :: lo <= p && p < hi ==> isdig(b[p])
+//@ pred fieldOK(b []byte, lo int, hi int) = lo <= hi && ((lo < hi && b[lo] == '-') ? digitsIn(b, lo+1, hi) : digitsIn(b, lo, hi))
+//@ spec sval(b []byte, lo int, hi int) int = (lo < hi && b[lo] == '-') ? 0 - dec(b, lo+1, hi) : dec(b, lo, hi)
+//@ spec sgrFinalBtn(bv int, rel bool, wasdown bool) int =
+//@        (rel || ((bv&32 != 0) && !wasdown)) ? (((bv &^ 32) | 3) &^ 0x40) : (bv &^ 32)
+
+//@ func (*tScreen).parseSgrMouse
+//@   arith math
+//@   requires bufwf(buf) && t.cells.w >= 1 && t.cells.h >= 1 && buf != nil && evs != nil
+//@   let b = buf.buf[buf.off:]
+//@   ghost entry: hd = 0
+//@   ghost entry: s1 = 0
+//@   ghost entry: s2 = 0
+//@   ghost entry: fs = 0
+//@   ghost loop-end:1: hd = b[rangeindex] == '<' ? rangeindex : hd
+//@   ghost loop-end:1: s1 = (b[rangeindex] == ';' && state == 4) ? rangeindex : s1
+//@   ghost loop-end:1: s2 = (b[rangeindex] == ';' && state == 5) ? rangeindex : s2
+//@   ghost loop-end:1: fs = (b[rangeindex] == '<' || b[rangeindex] == ';') ? rangeindex + 1 : fs
+//@   ensures [quiet] !result1 ==> buf.off == old(buf.off) && len(*evs) == old(len(*evs)) && t.buttondn == old(t.buttondn)
+//@   ensures [shape] result1 ==> result0 && sgrHdr(b, hd) && hd < s1 && s1 < s2 && s2 < (buf.off - old(buf.off) - 1) && (buf.off - old(buf.off) - 1) < len(b) && b[s1] == ';' && b[s2] == ';' && (b[(buf.off - old(buf.off) - 1)] == 'm' || b[(buf.off - old(buf.off) - 1)] == 'M')
+//@   ensures [fields] result1 ==> fieldOK(b, hd+1, s1) && fieldOK(b, s1+1, s2) && fieldOK(b, s2+1, (buf.off - old(buf.off) - 1))
+//@   ensures [oneevent] result1 ==> len(*evs) == old(len(*evs)) + 1
+//@   ensures [pos] result1 ==> mouseAt(evs, old(len(*evs))).x == clampTo(sval(b, s1+1, s2) - 1, t.cells.w) &&
+//@                              mouseAt(evs, old(len(*evs))).y == clampTo(sval(b, s2+1, (buf.off - old(buf.off) - 1)) - 1, t.cells.h)
+//@   ensures [mods] result1 ==> mouseAt(evs, old(len(*evs))).mod == xmod(sgrFinalBtn(sval(b, hd+1, s1), b[(buf.off - old(buf.off) - 1)] == 'm', old(t.buttondn)))
+//@   ensures [button] result1 && sgrFinalBtn(sval(b, hd+1, s1), b[(buf.off - old(buf.off) - 1)] == 'm', old(t.buttondn))&0x42 != 0x42 ==>
+//@              mouseAt(evs, old(len(*evs))).btn == xbtn(sgrFinalBtn(sval(b, hd+1, s1), b[(buf.off - old(buf.off) - 1)] == 'm', old(t.buttondn)))
+//@   ensures [release] result1 && b[(buf.off - old(buf.off) - 1)] == 'm' ==> mouseAt(evs, old(len(*evs))).btn == ButtonNone && !t.buttondn
+//@   ensures [idlemotion] result1 && b[(buf.off - old(buf.off) - 1)] == 'M' && sval(b, hd+1, s1)&32 != 0 && !old(t.buttondn) ==> mouseAt(evs, old(len(*evs))).btn == ButtonNone && !t.buttondn
+//@   ensures [drag] result1 && b[(buf.off - old(buf.off) - 1)] == 'M' && sval(b, hd+1, s1)&32 != 0 && old(t.buttondn) && sval(b, hd+1, s1)&0x42 != 0x42 ==>
+//@              mouseAt(evs, old(len(*evs))).btn == xbtn(sval(b, hd+1, s1)) && t.buttondn
+//@   ensures [press] result1 && b[(buf.off - old(buf.off) - 1)] == 'M' && sval(b, hd+1, s1)&32 == 0 && sval(b, hd+1, s1)&0x40 == 0 ==> t.buttondn
+//@   ensures [wheel] result1 && b[(buf.off - old(buf.off) - 1)] == 'M' && sval(b, hd+1, s1)&32 == 0 && sval(b, hd+1, s1)&0x42 == 0x40 ==> t.buttondn == old(t.buttondn)
+//@   loop 1: invariant [idx] -1 <= rangeindex && rangeindex < len(b) && 0 <= state && state <= 5 && buf.off == old(buf.off) && buf.buf == old(buf.buf) && len(*evs) == old(len(*evs)) && t.buttondn == old(t.buttondn)
+//@           invariant [s0] (state == 0) == (rangeindex == -1)
+//@           invariant [s1] state == 1 ==> rangeindex == 0 && b[0] == 0x1b
+//@           invariant [s2] state == 2 ==> (rangeindex == 1 && b[0] == 0x1b && b[1] == '[') || (rangeindex == 0 && b[0] == 0x9b)
+//@           invariant [hdr] state >= 3 ==> sgrHdr(b, hd) && hd < fs && fs <= rangeindex + 1
+//@           invariant [cur] state >= 3 ==> (neg ==> fs <= rangeindex && b[fs] == '-') && (!neg && fs <= rangeindex ==> b[fs] != '-') &&
+//@                             digitsIn(b, fs + (neg ? 1 : 0), rangeindex + 1) && val == dec(b, fs + (neg ? 1 : 0), rangeindex + 1) &&
+//@                             dig == (rangeindex + 1 > fs + (neg ? 1 : 0))
+//@           invariant [f3] state == 3 ==> fs == hd + 1
+//@           invariant [f4] state >= 4 ==> hd < s1 && b[s1] == ';' && fieldOK(b, hd+1, s1) && btn == sval(b, hd+1, s1) && s1 < fs
+//@           invariant [f4s] state == 4 ==> fs == s1 + 1
+//@           invariant [f5] state == 5 ==> s1 < s2 && b[s2] == ';' && fieldOK(b, s1+1, s2) && x == sval(b, s1+1, s2) - 1 && fs == s2 + 1
+//@           decreases len(b) - rangeindex
+//@   loop 2: invariant [consume] -1 <= i && bufwf(buf) && buf.buf == old(buf.buf) && len(*evs) == old(len(*evs))
+//@           invariant [count] exists ee int :: 0 <= ee && ee < len(b) && buf.off + i + 1 == old(buf.off) + ee + 1 && (b[ee] == 'm' || b[ee] == 'M')
 //@           decreases i + 1
